@@ -30,8 +30,9 @@ theorem C15_lns_to_lns_special (c1 c2 : Cfg) (hn : 2 ≤ c2.nbits) (t : Threshol
   · intro h
     rw [h] at hd; simp only [if_true, Option.some.injEq] at hd
     have hq : quietNaN f64 = 0x7ff8000000000000 := by decide
-    rw [← hd, hq, (C03_lns_from_nan c2 hn t lg).1]
-    exact (C03_lns_from_nan c2 hn t lg).2.2.2.2
+    have hnan : IeeeBits.isNaN f64 0x7ff8000000000000 = true := by decide
+    rw [← hd, hq]
+    exact (C03_lns_from_nan c2 hn t _ lg hnan).2
   · intro h
     rw [h] at hd; simp only [Bool.false_eq_true, if_false] at hd
     split at hd
